@@ -71,3 +71,15 @@ Definition wf (s : tstate) : Prop :=
   | CycB _ iv _ _ => 0 < iv
   | _ => True
   end.
+
+(** the mock clock serving several pending timers (pkg/clock/mock.go lockedSet): every Set serves exactly the
+    timers whose due time has been reached, whatever the order in which they were registered and however
+    far apart their due times lie (no wrap-around: times are unbounded here; the implementation's time.Time
+    covers years 1..9999, its UnixNano only 1678..2262) *)
+Definition clock_set (pending : list (nat * Z)) (T : Z) : list nat * list (nat * Z) :=
+  (map fst (filter (fun p => snd p <=? T) pending), filter (fun p => negb (snd p <=? T)) pending).
+Fixpoint clock_run (pending : list (nat * Z)) (Ts : list Z) : list (list nat) :=
+  match Ts with
+  | [] => []
+  | T :: r => let '(served, rest) := clock_set pending T in served :: clock_run rest r
+  end.
